@@ -459,11 +459,29 @@ theorem C07_load_iff_wellformed_counterexample_directive :
     field or ENUM VALUE names, at most one `schema` block, every root operation type given at most ONCE,
     extensions of the base's kind, and no enum value named `true`/`false`/`null`.
     (`hext`: extensions are not `builtIn` — the prelude has none.)
-    Not covered by a theorem: the directive clauses and `implementsFieldsOK` (judged by exploration),
-    and the one clause the code violates (`uniqueDirectiveNames`). -/
+    `implementsFieldsOK` is `C07_load_sound_implementsFields` below.  Not covered by a theorem: the
+    directive clauses and the two argument clauses that range over directive definitions (judged by
+    exploration), and the one clause the code violates (`uniqueDirectiveNames`). -/
 theorem C07_load_sound_partial {sd : SchemaDoc} {s : Schema} (h : load sd = .ok s)
     (hext : ∀ e ∈ sd.extensions, e.builtIn = false) : SoundClauses sd :=
   load_sound h hext
+
+/-- **soundness for `implementsFieldsOK`** (the remaining type-structure clause): in a document the
+    loader accepts, every implementer provides every field of its interfaces at a covariant type
+    (`Spec.covariant`, the specification's IsValidImplementationFieldType, read off the DEFINITIONS —
+    the loader decides it from `PossibleTypes`), takes every argument of the interface field at the
+    IDENTICAL type, and adds no required argument.  `NamesLexical`: what the lexer guarantees — no
+    empty definition name, no `!`/`[`/`]` inside a name of a field or argument type (`Type.String()`,
+    which the repaired loader compares, is injective only on such names). -/
+theorem C07_load_sound_implementsFields {sd : SchemaDoc} {s : Schema} (h : load sd = .ok s)
+    (hext : ∀ e ∈ sd.extensions, e.builtIn = false) (hlex : NamesLexical sd) :
+    Spec.implementsFieldsOK (.ofDoc sd) = true :=
+  load_implementsFieldsOK h hext hlex
+
+/-- non-vacuity: a document with interface implementations (one covariant through a union) that
+    satisfies the hypotheses and loads -/
+example : NamesLexical Examples.implOkDoc ∧ (load Examples.implOkDoc).isOk = true ∧
+    Spec.implementsFieldsOK (.ofDoc Examples.implOkDoc) = true := ⟨by decide, by decide, by decide⟩
 
 /-- non-vacuity of the spec: the small valid document is well formed and loads -/
 example : Spec.WellFormed Examples.okDoc ∧ (load Examples.okDoc).isOk = true := ⟨by decide, by decide⟩
